@@ -55,3 +55,32 @@ Theorem C11_union_of_forward_sessions : forall c ops, vcfg c -> c_chunk c = true
   c'' = c' /\ refines c' st' s'.
 Proof. exact sessions_refine_init. Qed.
 Print Assumptions C11_union_of_forward_sessions.
+
+(* ---- a new session on an existing channel is refused exactly when a stored channel parameter
+   differs.  compare_table is regenerated on every run from the restart branch of
+   digital_rf_handle_metadata in the current source, prop_table from its create branch
+   (Gen/AttrTables.v); chan_params is the hand-written list of the twelve stored parameters (five
+   element-type queries, both cadences, rate numerator and denominator, complex / subchannel /
+   continuous flags).  e is the writer object that created the channel, e' the one being opened. *)
+From DRF Require Import Model.Attrs Gen.AttrTables Proofs.AttrsProofs.
+
+Theorem C11_restart_accepted_iff_same_parameters : forall e e',
+  check_existing compare_table compare_final e' (write_table e prop_table) = 0 <->
+  chan_params e = chan_params e'.
+Proof. exact restart_accepted_iff_same_parameters. Qed.
+Print Assumptions C11_restart_accepted_iff_same_parameters.
+
+Theorem C11_restart_refused_on_any_difference : forall e e',
+  chan_params e <> chan_params e' ->
+  check_existing compare_table compare_final e' (write_table e prop_table) <> 0.
+Proof. exact restart_refused_on_any_difference. Qed.
+Print Assumptions C11_restart_refused_on_any_difference.
+
+(* the statement is not vacuous: an equal writer object is accepted, one with another subchannel
+   count or another mode is refused with -1 *)
+Theorem C11_restart_examples :
+  check_existing compare_table compare_final (ex_env 2 1) (write_table (ex_env 2 1) prop_table) = 0 /\
+  check_existing compare_table compare_final (ex_env 3 1) (write_table (ex_env 2 1) prop_table) = -1 /\
+  check_existing compare_table compare_final (ex_env 2 0) (write_table (ex_env 2 1) prop_table) = -1.
+Proof. exact (conj restart_same_accepted (conj restart_other_subchannels_refused restart_other_mode_refused)). Qed.
+Print Assumptions C11_restart_examples.
